@@ -14,6 +14,7 @@ TxBA  == <<98,97,32,61,32,58,118>>                  \* "ba = :v"      (anagram o
 TxAB2 == <<97,98,32,32,61,32,32,58,118>>            \* "ab  =  :v"    (repeated blanks)
 TxAB3 == <<32,97,98,32,61,32,58,118,32>>            \* " ab = :v "    (surrounding blanks)
 TxOther == <<97,98,32,60,62,32,58,118>>             \* "ab <> :v"
+KxH   == <<104,32,61,32,58,118>>                   \* "h = :v"       (as key condition and as filter)
 UxAB  == <<83,69,84,32,97,98,32,61,32,58,118>>      \* "SET ab = :v"
 UxAB2 == <<83,69,84,32,32,97,98,32,61,32,58,118>>   \* "SET  ab = :v"
 UxBA  == <<83,69,84,32,98,97,32,61,32,58,118>>      \* "SET ba = :v"  (anagram)
@@ -26,16 +27,21 @@ Key == [h |-> S1(97)]
 Matcher(t, kind, text, id, verdict) == [op |-> "AddMatcher", c |-> "c1", t |-> t, mkind |-> kind, text |-> text, id |-> id, verdict |-> verdict]
 Updater(t, text, id) == [op |-> "AddUpdater", c |-> "c1", t |-> t, text |-> text, id |-> id, attr |-> "mark", val |-> Str(<<117>>)]
 Regs == { Matcher(TA, "conditional", TxAB, "m1", FALSE), Matcher(TA, "conditional", TxBA, "m2", TRUE), Matcher(TB, "conditional", TxAB, "m3", FALSE),
-          Matcher(TA, "filter", TxAB, "m4", FALSE), Updater(TA, UxAB, "u1") }
+          Matcher(TA, "filter", TxAB, "m4", FALSE), Updater(TA, UxAB, "u1"), Matcher(TA, "key", KxH, "m5", FALSE) }
 PutT(t, ast, text) == PutC("c1", t, Item, Cond(ast), <<>>, VX, FALSE) @@ [condtext |-> text]
 DelT(t, ast, text) == DelC("c1", t, Key, Cond(ast), <<>>, VX, FALSE, FALSE) @@ [condtext |-> text]
 UpdT(t, u, text) == UpdC("c1", t, Key, u, NoCond, <<>>, VX, FALSE) @@ [updtext |-> text]
 ScanT(t, ast, text) == ScanOp("c1", t, NoIndex, Cond(ast), <<>>, VX) @@ [filtertext |-> text]
+CH == Cmp("=", Path("h"), Val(":v"))
+VA == One(":v", S1(97))
+QueryT(t) == QueryOp("c1", t, NoIndex, CH, NoFilter, <<>>, VA, TRUE) @@ [kctext |-> KxH]
+ScanH(t) == ScanOp("c1", t, NoIndex, Cond(CH), <<>>, VA) @@ [filtertext |-> KxH]
 Requests ==
      { PutT(t, x[1], x[2]) : t \in {TA, TB}, x \in { <<CAB, TxAB>>, <<CBA, TxBA>>, <<CAB, TxAB2>>, <<CAB, TxAB3>>, <<COther, TxOther>> } }
   \cup { DelT(TA, CAB, TxAB), DelT(TA, CBA, TxBA) }
   \cup { UpdT(t, SetU("ab", Val(":v")), x) : t \in {TA, TB}, x \in {UxAB, UxAB2} } \cup { UpdT(TA, SetU("ba", Val(":v")), UxBA) }
   \cup { ScanT(TA, CAB, TxAB), ScanT(TA, CBA, TxBA), ScanT(TB, CAB, TxAB), ScanT(TA, CAB, TxAB2) }
+  \cup { QueryT(TA), QueryT(TB), ScanH(TA) }
 SetupDef == (IF PreActivate THEN << [op |-> "NativeActivate", c |-> "c1"] >> ELSE <<>>)
             \o << AddTable("c1", TA, "h", ""), AddTable("c1", TB, "h", ""), Put(TA, Item), Put(TB, Item) >>
 MenuDef == SetToSeq(Regs) \o SetToSeq(Requests) \o << [op |-> "NativeActivate", c |-> "c1"], Put(TA, Item), Put(TB, Item) >>
